@@ -53,10 +53,10 @@ impl Message {
 
             // If this is a ping, respond with a pong
             if frame.opcode == Opcode::Ping {
-                let pong = Frame::new(Opcode::Pong, frame.payload);
+                let pong: Vec<u8> = Frame::new(Opcode::Pong, frame.payload).into();
                 stream
                     .stream
-                    .write_all(pong.as_ref())
+                    .write_all(&pong)
                     .map_err(|_| WebsocketError::WriteError)?;
                 continue;
             }
@@ -69,10 +69,10 @@ impl Message {
 
             // If this closes the connection, return the error
             if frame.opcode == Opcode::Close {
-                let close = Frame::new(Opcode::Close, frame.payload);
+                let close: Vec<u8> = Frame::new(Opcode::Close, frame.payload).into();
                 stream
                     .stream
-                    .write_all(close.as_ref())
+                    .write_all(&close)
                     .map_err(|_| WebsocketError::WriteError)?;
                 return Err(WebsocketError::ConnectionClosed);
             }
@@ -114,8 +114,8 @@ impl Message {
                 Restion::Ok(frame) => {
                     // If this is a ping, respond with a pong
                     if frame.opcode == Opcode::Ping {
-                        let pong = Frame::new(Opcode::Pong, frame.payload);
-                        if stream.stream.write_all(pong.as_ref()).is_err() {
+                        let pong: Vec<u8> = Frame::new(Opcode::Pong, frame.payload).into();
+                        if stream.stream.write_all(&pong).is_err() {
                             return Restion::Err(WebsocketError::WriteError);
                         }
                         continue;
@@ -129,8 +129,8 @@ impl Message {
 
                     // If this closes the connection, return the error
                     if frame.opcode == Opcode::Close {
-                        let close = Frame::new(Opcode::Close, frame.payload);
-                        if stream.stream.write_all(close.as_ref()).is_err() {
+                        let close: Vec<u8> = Frame::new(Opcode::Close, frame.payload).into();
+                        if stream.stream.write_all(&close).is_err() {
                             return Restion::Err(WebsocketError::WriteError);
                         }
                         return Restion::Err(WebsocketError::ConnectionClosed);
